@@ -56,6 +56,8 @@ class SeqChannel:
                 self.deliver_next()
         elif fr.name == 'Queue.Declare':
             self.ch.on_frame(spec.Queue.DeclareOk(queue=fr.queue, message_count=0, consumer_count=0))
+        elif fr.name == 'Basic.Cancel':
+            self.ch.on_frame(spec.Basic.CancelOk(consumer_tag=fr.consumer_tag))
         elif fr.name == 'Channel.CloseOk':
             pass
 
@@ -127,6 +129,56 @@ def render(frames):
         else:
             out.append('%s:0:-' % f.name)
     return ','.join(out) if out else '-'
+
+
+def seq_guard_history(rep, rng):
+    """the consumer guard over a history of consume/cancel: get is refused exactly while a consumer is left"""
+    import amqpstorm.rpc as arpc
+    import types
+    from amqpstorm.exception import AMQPChannelError
+    sc = SeqChannel(rpc_timeout=2)
+    saved = arpc.time
+    arpc.time = types.SimpleNamespace(time=lambda: sc.now, sleep=sc.sleep)
+    k = rng.randint(1, 4)
+    tags = ['g%d' % i for i in range(k)]
+    for t in tags:
+        sc.ch.add_consumer_tag(t)
+        sc.ch._consumer_callbacks[t] = lambda m: None
+    hist = []
+    live = list(tags)
+    replay = {'kind': 'seq-guard-history', 'consumers': k}
+    try:
+        for _ in range(rng.randint(1, k + 1)):
+            if live and rng.random() < 0.7:
+                t = rng.choice(live)
+                live.remove(t)
+                hist.append('cancel:' + t)
+                sc.ch.basic.cancel(t)
+            n0 = len([w for w in sc.written if w[1] == 'Basic.Get'])
+            sc.arrivals = [spec.Basic.GetEmpty()]
+            sc.eager = 1
+            try:
+                sc.ch.basic.get('q')
+                res = 'returned'
+            except AMQPChannelError as why:
+                res = 'guard' if 'set to consume' in str(why) else 'channel-error'
+            wrote = len([w for w in sc.written if w[1] == 'Basic.Get']) - n0
+            hist.append('get:%s' % res)
+            replay['history'] = list(hist)
+            if live and (res != 'guard' or wrote):
+                rep.violation('C15/guard/after-cancel', 'consumers %r are still active but get %s (Basic.Get written %d times) after %r' % (
+                    live, res, wrote, hist), replay)
+                break
+            if not live and res != 'returned':
+                rep.violation('C15/guard/false-refusal', 'no consumer is left but get gave %s after %r' % (res, hist), replay)
+                break
+            if sc.ch.rpc._request or sc.ch.rpc._response:
+                rep.violation('C15/residue', 'tables not empty after %r' % (hist,), replay)
+                break
+    finally:
+        arpc.time = saved
+    rep.case(('seq-guard-history', k, tuple(hist)), k >= 2, sample=replay)
+    rep.count('seq_kind', 'guard-history')
 
 
 def seq_pending_error(rep, rng):
@@ -345,6 +397,8 @@ def check(rep):
         seq_case(rep, rng, lines, expect)
         if rng.random() < 0.05:
             seq_pending_error(rep, rng)
+        if rng.random() < 0.05:
+            seq_guard_history(rep, rng)
     jobs = []
     for _ in range(60 if not thorough else 1200):
         then = rng.choice([None, None, 'silence', 'close', 'die'])
